@@ -67,7 +67,7 @@ func (r *ReduceMax) Apply(inputs []tensor.Tensor) ([]tensor.Tensor, error) {
 		}
 	}
 
-	out, err := input.Max(axes...)
+	out, err := ops.ReduceAxes(input, axes, (*tensor.Dense).Max)
 	if err != nil {
 		return nil, err
 	}
